@@ -1,11 +1,11 @@
 package checks
 
 import (
-	"math/big"
 	"bytes"
 	"encoding/json"
 	"fmt"
 	"math"
+	"math/big"
 	"sort"
 	"strings"
 
